@@ -1039,20 +1039,23 @@ def regex_phase(ctx: Ctx, n_cases: int) -> None:
         real_text = t.format_as_spec()
         model_text = "".join(chr(c) for c in a["text"])
         # (P) printer correspondence
-        if model_text != real_text:
+        p_ok = model_text == real_text
+        if not p_ok:
             ctx.corr_fail("regex_print", {"pattern": ascii(p), "model": ascii(model_text), "impl": ascii(real_text)})
-            continue
-        texts.append((model_text, p))
+        else:
+            texts.append((model_text, p))
         # the theorem's instance, re-computed by the driver (sanity of the executable definitions)
         if a["wf"] and a["noff"]:
             if a["eval"] is None or a["eval"]["bytes"] != is_b or a["eval"]["v"] != a["spelled"]:
                 ctx.corr_fail("regex_theorem_instance", {"pattern": ascii(p), "eval": a["eval"], "spelled": a["spelled"]})
-        # (R) reader correspondence on the printed text + the property on the real code
+        # (R) reader correspondence on the printed text + the property on the real code (the REAL text, whatever the
+        # model printed)
         real = read_symbol_text(real_text)
         replay = {"kind": "regex", "spec": "<start> ::= " + real_text + "\n", "pattern": pat_show(p)}
         model_v = None if a["eval"] is None else cps_pat(a["eval"]["v"], a["eval"]["bytes"])
         real_v = real[1] if real[0] == "regex" else None
-        if (model_v is None) != (real_v is None) or (model_v is not None and (model_v != real_v or type(model_v) is not type(real_v))):
+        if p_ok and ((model_v is None) != (real_v is None) or
+                     (model_v is not None and (model_v != real_v or type(model_v) is not type(real_v)))):
             ctx.corr_fail("regex_read", {"pattern": ascii(p), "text": ascii(real_text), "model": ascii(model_v), "impl": ascii(real)})
         if not a["wf"]:
             continue                      # not the value of any raw literal: outside the quantifier
@@ -1070,7 +1073,7 @@ def regex_phase(ctx: Ctx, n_cases: int) -> None:
                 run.report(sig, f"re: {b0!a} and {b1!a} (one unit spelled \\xNN) do not denote the same regex; "
                                 f"{p!a} is printed {real_text!a}", replay)
                 break
-        if denote(real_v) != denote(p):
+        if type(real_v) is not type(p) or denote(real_v) != denote(p):
             sig = "C15/regex-verbose-whitespace" if verbose_ws else "C15/regex-changed"
             run.report(sig, f"regex terminal {p!a} is printed {real_text!a} and read back as {real_v!a}, a different regex", replay)
         elif real_v == p:
@@ -1351,23 +1354,28 @@ def selector_phase(ctx: Ctx, n_cases: int) -> None:
         model_text = render_sel(a["toks"])
         run.case(["sel", t], not a["flat"] or t[0] != "plain", {"selector": real_text})
         # (P) printer correspondence
-        if model_text != real_text:
+        p_ok = model_text == real_text
+        if not p_ok:
             ctx.corr_fail("selector_print", {"term": t, "model": model_text, "impl": real_text})
-            continue
-        printed.append(a["toks"])
+        else:
+            printed.append(a["toks"])
         # theorem instances, re-computed by the driver
         if a["wf"] and a["read"] != a["norm"]:
             ctx.corr_fail("selector_theorem_instance", {"term": t, "read": a["read"], "norm": a["norm"]})
         if a["wf"] and a["flat"] and a["norm"] != t:
             ctx.corr_fail("selector_flat_instance", {"term": t, "norm": a["norm"]})
-        # (R) the real front end on the printed text
+        # (R) the real front end on the printed text (the REAL text, whatever the model printed)
         rr = read_selector_text(real_text)
         real_top = rr[1] if rr[0] == "sel" else None
-        if real_top != a["read"]:
+        if p_ok and real_top != a["read"]:
             ctx.corr_fail("selector_read", {"term": t, "text": real_text, "model": a["read"], "impl": rr[:2]})
-            continue
         if not a["wf"]:
             run.count("selector_unprintable:" + rr[0])
+            continue
+        sel_replay = {"kind": "selector", "spec": SEL_GRAMMAR + "where " + real_text + " == 0\n", "term": t}
+        if rr[0] != "sel":
+            run.report("C15/printed-text-rejected", f"the selector {real_text!r} printed for a search is not read back as a selector "
+                       f"({rr[:2]})", sel_replay)
             continue
         # the property on the real code: the search read back finds what the original finds
         if trees is None:
@@ -1382,7 +1390,7 @@ def selector_phase(ctx: Ctx, n_cases: int) -> None:
             if f1 != f2:
                 run.report("C15/selector-changed", f"selector {real_text!r}: the search object finds {str(f1)[:120]} in {str(tr)!r}, "
                            f"the search read back from its printed form finds {str(f2)[:120]}",
-                           {"kind": "selector", "spec": SEL_GRAMMAR + "where " + real_text + " == 0\n", "term": t, "input": str(tr)})
+                           dict(sel_replay, input=str(tr)))
                 break
     # (R') the selector reader on mutated token strings
     pool = [".", "..", "[", "]", "{", "}", ",", ":", "*", "(", ")", "|", "len", ["nt", "<a>"], ["nt", "<b>"], ["num", 0], ["num", 7]]
